@@ -685,6 +685,14 @@ class ChildWorld:
                 r.kf = _sc(r.kf, float(op[3]))
             else:
                 r.kr = _sc(r.kr, float(op[3]))
+        elif name == "set_state_si":
+            # ["set_state_si", species, cell, molecules]: RDSystem.set_state with a plain number, which is read in the system's
+            # own units system (whatever units the state array happens to be stored in)
+            system = self.get_system(sidx)
+            from . import si as _si
+            q = system.units_system["quantity"]
+            system.set_state(int(op[1]), int(op[2]), float(op[3]) / _si.QUANTITY[q])
+            self.scripts.pop(sidx, None)
         elif name == "chem_api":
             # ["chem_api", action, species, cell, value]: the chemostat map of the caller's live system changed through the
             # methods of RDSystem (after the kinetics functions were used on it)
